@@ -269,15 +269,24 @@ func genC19Base(t *rapid.T) c19Base {
 	b.RootExts = append([]core.Extension{{Kind: core.KSKI, HasContent: true, SKI: "hash"}, {Kind: core.KAKI, HasContent: true, AKI: "hash"}}, genExtList(t, "rx", kinds, 3, 1200)...)
 	b.SubExts = append([]core.Extension{{Kind: core.KAKI, HasContent: true, AKI: "hash"}, {Kind: core.KSKI, HasContent: true, SKI: "hash"}}, genExtList(t, "sx", kinds, 3, 1200)...)
 	v := rapid.SampledFrom([]int64{0, 1, 2, 3, 4, -1, -128, 127, 128, 255, 256, 65535, 1 << 31, 1<<40 + 3}).Draw(t, "version")
-	b.Values = core.Manip{Version: &v, OuterSig: genOID(t, "outer"), SigValue: genRaw(t, "sigvalue", 1500), TbsSig: genOID(t, "inner"),
-		TbsPubAlg: genOID(t, "pubalg"), TbsPubKey: genRaw(t, "pubkey", 1500)}
+	// an OID is an OID: also the ones gopki itself implements (signature and key algorithms of either family) are just values here
+	algOID := func(label string) string {
+		if rapid.IntRange(0, 2).Draw(t, label+"-real") == 0 {
+			return rapid.SampledFrom([]string{"1.2.840.113549.1.1.5", "1.2.840.113549.1.1.11", "1.2.840.113549.1.1.12", "1.2.840.113549.1.1.13",
+				"1.2.840.10045.4.1", "1.2.840.10045.4.3.2", "1.2.840.10045.4.3.3", "1.2.840.10045.4.3.4", "1.2.840.113549.1.1.1", "1.2.840.10045.2.1",
+				"1.2.840.113549.1.1.10", "1.3.101.112"}).Draw(t, label+"-realoid")
+		}
+		return genOID(t, label)
+	}
+	b.Values = core.Manip{Version: &v, OuterSig: algOID("outer"), SigValue: genRaw(t, "sigvalue", 1500), TbsSig: algOID("inner"),
+		TbsPubAlg: algOID("pubalg"), TbsPubKey: genRaw(t, "pubkey", 1500)}
 	return b
 }
 
 func TestC19(t *testing.T) {
 	r := core.Start(t, "C19")
 	defer r.Finish()
-	r.Rule = "base case: root and subordinate with pre-placed keys (RSA-1024/2048 preferred so that PKCS#1 v1.5 signatures are deterministic; also P-256, P-384, brainpoolP256r1), configured serials, absolute validity, SKI/AKI hash plus up to 3 further extensions each; six manipulation values drawn once (version from {0,1,2,3,4,-1,-128,127,128,255,256,65535,2^31,2^40+3}, three valid OIDs, two byte values in every raw form up to 1500 bytes). Half of the bases reference a profile (so that profile merging runs). For each base ALL 64 subsets of the six keys are applied to the root or the subordinate and compared with the unmanipulated run of the same configuration. Oracle: named fields carry exactly the given value; every other field equals the unmanipulated certificate; key identifiers follow the bits actually in the certificates; unless the signature value itself is manipulated, the signature verifies over the raw manipulated TBS bytes with the real issuer key (taken from the issuer's PRIVATE KEY block) under the configured algorithm; outer-only manipulations leave the TBS bytes untouched; for a quarter of the subsets the manipulations are then removed from the configuration again and the regenerated certificate must equal the unmanipulated one. Non-trivial = subset of size >= 2 or a TBS-internal manipulation on the subordinate; distinct by base + subset."
+	r.Rule = "base case: root and subordinate with pre-placed keys (RSA-1024/2048 preferred so that PKCS#1 v1.5 signatures are deterministic; also P-256, P-384, brainpoolP256r1), configured serials, absolute validity, SKI/AKI hash plus up to 3 further extensions each; six manipulation values drawn once (version from {0,1,2,3,4,-1,-128,127,128,255,256,65535,2^31,2^40+3}, three valid OIDs (one in three taken from the signature / key algorithm OIDs gopki itself implements), two byte values in every raw form up to 1500 bytes). Half of the bases reference a profile (so that profile merging runs). For each base ALL 64 subsets of the six keys are applied to the root or the subordinate and compared with the unmanipulated run of the same configuration. Oracle: named fields carry exactly the given value; every other field equals the unmanipulated certificate; key identifiers follow the bits actually in the certificates; unless the signature value itself is manipulated, the signature verifies over the raw manipulated TBS bytes with the real issuer key (taken from the issuer's PRIVATE KEY block) under the configured algorithm; outer-only manipulations leave the TBS bytes untouched; for a quarter of the subsets the manipulations are then removed from the configuration again and the regenerated certificate must equal the unmanipulated one. Non-trivial = subset of size >= 2 or a TBS-internal manipulation on the subordinate; distinct by base + subset."
 	r.Assumptions = []string{"a manipulated AlgorithmIdentifier is exactly what the configuration gives: the OID and nothing else (no parameters)", "an absent version field reads as 0"}
 	wrap := func(c c19Case) *core.Failure {
 		bits := 0
